@@ -2,7 +2,7 @@
  * chunk_state_update: self->cv, self->buf) or in two */
 #define HARNESS_COMPRESS_IN_PLACE(F)                                                     \
   void harness(void) {                                                                   \
-    VERIF_HAVOC_GLOBALS();                                                               \
+    VERIF_PROLOGUE();                                                            \
     blake3_chunk_state s;                                                                \
     uint8_t other_block[64];                                                             \
     _Bool alias;                                                                         \
@@ -13,7 +13,7 @@
   }
 #define HARNESS_COMPRESS_XOF(F)                                                          \
   void harness(void) {                                                                   \
-    VERIF_HAVOC_GLOBALS();                                                               \
+    VERIF_PROLOGUE();                                                            \
     output_t o;                                                                          \
     uint32_t other_cv[8];                                                                \
     uint8_t other_block[64];                                                             \
